@@ -104,8 +104,8 @@ AsCoded == {"L_negzero",        \* literalgen._float_to_cst: `value < 0` is fals
             "A_enum_scope",     \* enum rendered as bare `Class.MEMBER`: nested / private / foreign classes
             "A_local_class",    \* isinstance on a SUT class with <locals> in its qualname
             "A_dynamic_class",  \* isinstance on a SUT class that is no attribute of the module
-            "A_unnamed_builtin",\* isinstance on builtins types that are no builtins names (dict_keys, generator)
-            "X_no_pytest"}      \* the exported file imports pytest only for pytest.raises / the seed fixture
+            "A_unnamed_builtin"}\* isinstance on builtins types that are no builtins names (dict_keys, generator)
+            \* "X_no_pytest" (file imported pytest only for pytest.raises / the seed fixture): fixed in 1355a01
 Intended == {}
 
 (* ------------------------------ rendered syntax ------------------------------ *)
